@@ -9,6 +9,24 @@ CHECKS = {
                 text='IVP (both modes), DirichletBVP and DoubleEndedBVP1D DD/DN/ND/NN, multi-network and ith-unit modes: value / HasDerivAt at the constrained points proved for every network symbol and all real parameters (t0 != t1 either orientation). The traced definitions are regenerated from /repo each run and replayed numerically against the real code.',
                 design='§7 C01'),
 }
+
+T = 'Lean 4 theorems over a model re-translated from source on every run (symbolic trace of the real code, verified symbolic derivative D_sound, kernel-checked linear_combination certificates)'
+CHECKS.update({
+    'C02': dict(engine='calc', technique=T, design='§7 C02',
+                text='DirichletBVP2D: the four edge identities for every point of every edge; IBVP1D DD/DN/ND/NN: initial profile for all x, boundary value or HasDerivAt in x at both ends for all t; boundary data derived from one arbitrary smooth field symbol; all real rectangles x0 != x1, y0 != y1. The irregular-domain (CustomBoundaryCondition) clause is NOT covered (partial).',
+                note='Partial: pde.CustomBoundaryCondition (thin-plate-spline interpolation through np.linalg.solve) is not modelled by this check.'),
+    'C08': dict(engine='calc', technique=T, design='§7 C08',
+                text='grad/laplacian/div in 1..4 dimensions, curl, vector_laplacian, zero components for omitted coordinates, and the compositions div∘grad, curl∘grad, div∘curl, curl∘curl, laplacian∘laplacian: each traced output equals the textbook expression in partial-derivative atoms of arbitrary field symbols (true partials by D_sound).'),
+    'C09': dict(engine='calc', technique=T, design='§7 C09',
+                text='All 10 spherical/cylindrical operators (22 components): traced output = local-frame component of the Cartesian operator applied to an arbitrary Cartesian field symbol composed with the coordinate map, for r != 0, sin(theta) != 0 (rho != 0). Conversion helpers: partial (see note).',
+                note='Partial: the four coordinate-conversion helpers (atan2/sqrt) are exercised by the failing-input search only, not yet by theorems.'),
+    'C10': dict(engine='calc', technique=T, design='§7 C10',
+                text='BundleIVP (value and derivative mode) and BundleDirichletBVP traced per lookup configuration over 4 extra columns (quick: fixed corner cases + seeded sample; thorough: all 355 configuration/mode pairs): row-wise value / HasDerivAt at t0_row (and t1_row) equals the routed parameter, for all networks and all column values (unused columns universally quantified).'),
+    'C11': dict(engine='calc', technique=T + '; hand-written Lean proof of the limit clause over a certificate-checked reference form', design='§7 C11',
+                text='DirichletBVPSpherical two-sided/one-sided, InfDirichletBVPSpherical and the three coefficient-space variants (per column, widths 1,3 quick / 1,2,9,25 thorough): boundary identities for all angles and both orientations; Tendsto to g as r -> infinity for every k > 0 and bounded network output (static analytic proof tied to the traced code by inf_eq_ref).'),
+    'C12': dict(engine='calc', technique=T + '; rejection paths observed on the real code', design='§7 C12',
+                text='EnsembleCondition over tuples of 1..4 closed-form sub-conditions: every traced column equals the sub-condition traced alone on that output; NoCondition is the identity for input widths 1..4 and output widths 1..4; ith_unit variants of all C01 conditions equal the condition on that single output (no other column occurs). Width mismatch / overridden-enforce rejection checked at run time on the real code.'),
+})
 NOT_YET = {}
 
 def main():
